@@ -53,7 +53,7 @@ def coq_make(targets=None, timeout=3000):
     if not os.path.exists(os.path.join(COQ, 'Makefile')) or \
             os.path.getmtime(os.path.join(COQ, 'Makefile')) < os.path.getmtime(os.path.join(COQ, '_CoqProject')):
         sh('coq_makefile -f _CoqProject -o Makefile', cwd=COQ)
-    cmd = ['make', '-j%d' % JOBS] + (targets or [])
+    cmd = ['make', '-k', '-j%d' % JOBS] + (targets or [])
     p = sh(cmd, cwd=COQ, timeout=timeout, check=False)
     return p.returncode == 0, p.stdout
 
